@@ -557,9 +557,11 @@ def run_check(prop, mod, tier, seed, tmp, replay, t_start, log):
         "wall_s": round(time.time() - t_start, 2),
         "violations": len(violations),
     }
-    os.makedirs(os.path.join(ROOT, "evidence"), exist_ok=True)
-    with open(os.path.join(ROOT, "evidence", prop + ".json"), "w") as f:
-        json.dump(evidence, f, indent=1)
+    # evidence is about /repo's working tree: a run against another tree (CLIKIT_SRC: seeded changes) leaves it alone
+    if os.path.realpath(SRC) == "/repo/src":
+        os.makedirs(os.path.join(ROOT, "evidence"), exist_ok=True)
+        with open(os.path.join(ROOT, "evidence", prop + ".json"), "w") as f:
+            json.dump(evidence, f, indent=1)
     if os.environ.get("VERIF_DEBUG"):
         for r in [r for r in results if r["diverges"]][:int(os.environ["VERIF_DEBUG"])]:
             print("DIVERGES", json.dumps(r["case"])[:300], "\n   impl ", r["impl_w"][:400], "\n   model", r["model_w"][:400])
